@@ -27,7 +27,7 @@ const (
 	fAckLate              // Ack after some schedule points
 	fLong                 // after Ack, run until the context is cancelled
 	fFail                 // return an error
-	fCap                  // put a client of server B into the results (pointer 0)
+	fCap                  // put a client of the next server (A -> B, B -> C) into the results (pointer 0)
 	fNoAlloc              // do not allocate results
 )
 
@@ -67,8 +67,9 @@ type srvM struct {
 
 type run struct {
 	s       *simrt.Sched
-	srv     [2]*srvM
+	srv     [3]*srvM
 	clientB *capnp.Client
+	clientC *capnp.Client
 	calls   map[int]*callM
 	nextID  int
 	ops     int
@@ -157,8 +158,12 @@ func (r *run) impl(srvIdx int) func(ctx context.Context, call *server.Call) erro
 				return cm.implErr
 			}
 			res.SetUint64(0, uint64(id)+1000)
-			if flags&fCap != 0 && r.clientB != nil {
-				c := r.clientB.AddRef()
+			next := r.clientB
+			if srvIdx == 1 {
+				next = r.clientC
+			}
+			if flags&fCap != 0 && next != nil && srvIdx < 2 {
+				c := next.AddRef()
 				cid := res.Message().AddCap(c)
 				res.SetPtr(0, capnp.NewInterface(res.Segment(), cid).ToPtr())
 			}
@@ -284,7 +289,7 @@ func (r *run) checkPiped(p *callM, err error, st capnp.Struct) {
 	reachable := base.starts > 0 && base.implDone && base.implErr == nil && base.flags&fCap != 0 && base.flags&fNoAlloc == 0
 	if !reachable {
 		if p.starts > 0 {
-			s.Fail("misdelivered", "answer.go:(*answerQueue).fulfill", fmt.Sprintf("pipelined call %d started on server B although call %d did not return a capability (starts=%d err=%v flags=%b)", p.id, base.id, base.starts, base.implErr, base.flags))
+			s.Fail("misdelivered", "answer.go:(*answerQueue).fulfill", fmt.Sprintf("pipelined call %d started on a server although call %d did not return a capability (starts=%d err=%v flags=%b)", p.id, base.id, base.starts, base.implErr, base.flags))
 		}
 		if err == nil {
 			s.Fail("wrong_result", "answer.go:(*answerQueue).reject", fmt.Sprintf("pipelined call %d succeeded although call %d produced no capability", p.id, base.id))
@@ -295,7 +300,7 @@ func (r *run) checkPiped(p *callM, err error, st capnp.Struct) {
 		if err == nil {
 			s.Fail("result_without_execution", "answer.go:(*answerQueue).fulfill", fmt.Sprintf("pipelined call %d succeeded without running", p.id))
 		}
-		if !p.cancelled && !r.srv[1].shutBegan {
+		if !p.cancelled && !base.cancelled && !r.srv[p.srv].shutBegan {
 			s.Fail("delivered_never", "answer.go:(*answerQueue).fulfill", fmt.Sprintf("pipelined call %d on call %d was never delivered to server B (err=%v) although its context was not cancelled", p.id, base.id, err))
 		}
 		return
@@ -312,15 +317,11 @@ func (r *run) workerTask(id int, client *capnp.Client, nops int) {
 	var out []*callM
 	released := false
 	finish := func(cm *callM) {
-		// never wait on a long call without cancelling it first
-		if cm.flags&fLong != 0 || (cm.pipedOn != nil && cm.pipedOn.flags&fLong != 0) {
-			if cm.pipedOn != nil {
-				cm.pipedOn.cancelled = true
-				cm.pipedOn.cancel()
-			}
-			if cm.flags&fLong != 0 {
-				cm.cancelled = true
-				cm.cancel()
+		// never wait on a long call (or on anything pipelined on one) without cancelling it first
+		for c := cm; c != nil; c = c.pipedOn {
+			if c.flags&fLong != 0 && !c.implDone {
+				c.cancelled = true
+				c.cancel()
 			}
 		}
 		if cm.viaRecv {
@@ -379,7 +380,7 @@ func (r *run) workerTask(id int, client *capnp.Client, nops int) {
 		case op == 3 || op == 4: // pipelined call on an outstanding answer (delivered to B through result pointer 0)
 			var cands []*callM
 			for _, c := range out {
-				if c.pipedOn == nil && !c.viaRecv && !c.completed {
+				if c.srv < 2 && !c.viaRecv && !c.completed {
 					cands = append(cands, c)
 				}
 			}
@@ -387,8 +388,15 @@ func (r *run) workerTask(id int, client *capnp.Client, nops int) {
 				continue
 			}
 			base := cands[s.Choice("base", len(cands))]
-			p := r.newCall(id, 1, r.pickFlags()&^(fLong|fCap))
+			pf := r.pickFlags() &^ fLong
+			if base.srv+1 >= 2 {
+				pf &^= fCap
+			}
+			p := r.newCall(id, base.srv+1, pf)
 			p.pipedOn = base
+			if base.pipedOn != nil {
+				s.Probe("pipelined_on_pipelined_call")
+			}
 			if !base.implDone {
 				s.Probe("pipelined_on_unreturned_answer")
 			} else {
@@ -452,7 +460,7 @@ func (Engine) Run(t *testing.T, tape *simrt.Tape, opt worker.Options) *worker.Ou
 	body := func(s *simrt.Sched) {
 		r.s = s
 		pol := &server.Policy{MaxConcurrentCalls: 1 + s.Choice("maxconc", 3), AnswerQueueSize: 1 + s.Choice("aqsize", 3)}
-		for i := 0; i < 2; i++ {
+		for i := 0; i < 3; i++ {
 			r.srv[i] = &srvM{id: i, maxConc: pol.MaxConcurrentCalls}
 		}
 		mk := func(i int) *server.Server {
@@ -460,6 +468,7 @@ func (Engine) Run(t *testing.T, tape *simrt.Tape, opt worker.Options) *worker.Ou
 		}
 		rootA := capnp.NewClient(mk(0))
 		r.clientB = capnp.NewClient(mk(1))
+		r.clientC = capnp.NewClient(mk(2))
 		r.ntasks = 1 + s.Choice("ntasks", 4)
 		for i := 0; i < r.ntasks; i++ {
 			i := i
@@ -480,10 +489,12 @@ func (Engine) Run(t *testing.T, tape *simrt.Tape, opt worker.Options) *worker.Ou
 			rootA.Release()
 		}
 		// B may still be referenced by result messages that were released; drop our reference last
-		cb := r.clientB
-		r.clientB = nil
+		cb, cc := r.clientB, r.clientC
+		r.clientB, r.clientC = nil, nil
 		r.srv[1].shutBegan = true
+		r.srv[2].shutBegan = true
 		cb.Release()
+		cc.Release()
 	}
 	final := func(s *simrt.Sched) {
 		for i, m := range r.srv {
